@@ -178,6 +178,8 @@ class Exec(ExprMixin, StmtMixin, LoopMixin, ModelMixin):
             return T.mkmap(v.n, self.arr_of_fn(v.n, v.key), self.arr_of_fn(v.n, v.val))
         if isinstance(v, ExcSym):
             return z3.Const("excval!" + str(v.term), T.Val)
+        if type(v).__name__ == "TypeOf":
+            return z3.Function("typeof", T.Val, T.Val)(self.as_val(v.v))
         if isinstance(v, Delayed):
             return self.as_val(self.force(v))
         raise Unsupported(f"as_val of {v!r}")
@@ -488,6 +490,8 @@ class Exec(ExprMixin, StmtMixin, LoopMixin, ModelMixin):
             return Sym("val", t)
         if kind == "val":
             return Sym("val", uf("", T.Val)(rt))
+        if kind == "arrdict":
+            return ArrDict(uf("#p", z3.ArraySort(T.Val, T.B))(rt), uf("#v", z3.ArraySort(T.Val, T.Val))(rt))
         if kind == "lock":
             return LockV(base)
         if kind == "seq_ev":
@@ -577,6 +581,8 @@ class Exec(ExprMixin, StmtMixin, LoopMixin, ModelMixin):
                 ci = cls_of(h2)
                 if h2 == "Evaluatable" or (ci is not None and repo.is_subclass(ci, "Evaluatable")):
                     return "map_ev", ("strkeys" if parts[0].strip() == "str" else None)
+                if h2 in ("Handler",):
+                    return "arrdict", None
             return "val", None
         if head.endswith("Lock"):
             return "lock", None
